@@ -164,6 +164,19 @@ fn eval_surface(root: &PathBuf, tag: usize, w: i32, h: i32, px: &[u32]) -> Resul
             if dt.get_data() != px || lm != n || lb != 4 * n {
                 return Err(("views-with-open-layer".into(), format!("get_data {:x?}, get_data_mut len {}, get_data_u8_mut len {}", dt.get_data(), lm, lb)));
             }
+            // the export is the surface, not the open layer
+            if w > 0 && h > 0 {
+                let (pl, pp) = (tmp_png(root, tag + 500_000), tmp_png(root, tag + 600_000));
+                let rl = dt.write_png(&pl);
+                let plain = DrawTarget::from_vec(w, h, px.to_vec());
+                let rp = plain.write_png(&pp);
+                let (bl, bp) = (std::fs::read(&pl).ok(), std::fs::read(&pp).ok());
+                let _ = std::fs::remove_file(&pl);
+                let _ = std::fs::remove_file(&pp);
+                if rl.is_err() != rp.is_err() || bl != bp {
+                    return Err(("png-with-open-layer-differs".into(), format!("write_png with an open layer: {:?}, {} bytes; without: {:?}, {} bytes", rl.is_ok(), bl.map_or(0, |b| b.len()), rp.is_ok(), bp.map_or(0, |b| b.len()))));
+                }
+            }
             let i = n - 1;
             dt.get_data_mut()[i] = 0xa1b2c3d4;
             if dt.get_data()[i] != 0xa1b2c3d4 || dt.get_data_u8()[4 * i..4 * i + 4] != [0xd4, 0xc3, 0xb2, 0xa1] {
@@ -385,7 +398,7 @@ impl Check for C19 {
         // large surfaces (more than 16384 / 65536 pixels, rows longer than 16384 pixels): whole
         // patterns whose zero words and non-zero words alternate with periods prime to any
         // power of two, and half-painted canvases
-        let big: Vec<(i32, i32)> = if q { vec![(200, 200), (16400, 1), (1, 16400), (16385, 2), (300, 300)] } else { vec![(200, 200), (16400, 1), (1, 16400), (16385, 2), (300, 300), (70000, 1), (3, 40000), (1024, 70)] };
+        let big: Vec<(i32, i32)> = if q { vec![(200, 200), (16400, 1), (1, 16400), (16385, 2), (300, 300), (1025, 1025)] } else { vec![(200, 200), (16400, 1), (1, 16400), (16385, 2), (300, 300), (70000, 1), (3, 40000), (1024, 70), (1025, 1025), (2051, 1027)] };
         run.bound("large surfaces", format!("{:?} x 4 whole-surface patterns (period-251 palette with zero words, top half painted, bottom half painted, one-hot far end)", big));
         run.par(big.len() * 4, |s, l| {
             let (w, h) = big[s / 4];
